@@ -16,7 +16,7 @@ VAL_TOL = 1e-7     # relative agreement with the reference multiplier
 
 def plan(tier):
     n = 320 if tier == 'quick' else 12000
-    return dict(n_cases=n, shards=16, min_nontrivial=n // 3, min_hits={'lb': n // 2},
+    return dict(suite_monitor=True, n_cases=n, shards=16, min_nontrivial=n // 3, min_hits={'lb': n // 2},
                 watchdog_s=1500 if tier == 'quick' else 7200,
                 rule='random symmetric pairs (K PD on a random active subset, others null; KG negative semidefinite / '
                      'indefinite / low-rank / banded, scaled sub-critical by a random margin 1.05..50), sizes 5..%d, '
